@@ -12,6 +12,8 @@ it emits every (ratios, n0, limit, query level).  Each is replayed on a properly
                         a point outside the domain is refused
   what = "grid"  (C10)  whip's uniform grid is the covering grid at the scenario's limit (a level's cells are Fac(l) per level-0 cell)
   what = "plate" (C08)  mandoline's 2-D flattening is the covering grid at the scenario's limit
+  what = "integral" (C09)  pestle's volume integral up to the scenario's limit is the sum over the covering grid (hierarchies on an
+                        EVEN blocking factor: every box corner is even)
 """
 import itertools
 import os
@@ -32,12 +34,15 @@ def models(tier):
                           "N0s": "{4, 5}"}}
 
 
-def nested_ap(sc, ndims, split, rng):
+def nested_ap(sc, ndims, split, rng, even=False):
     """One box per level (cut in two along the first axis when `split`): level 0 is the domain, level l covers the first two cells
-    of level l-1 along every axis."""
+    of level l-1 along every axis.  even: every box corner is an even index (a blocking factor of two)."""
     rs = list(sc["ratios"])
     n0 = sc["n0"]
     dom = [n0, n0 + 1, n0 + 2][:ndims]
+    if even:
+        n0 += n0 % 2
+        dom = [n0, n0 + 2, n0 + 4][:ndims]
     levels = []
     lo = [0] * ndims
     size = list(dom)
@@ -66,11 +71,11 @@ def nested_ap(sc, ndims, split, rng):
             "ratios": rs}
 
 
-def write(chk, sc, cfgseed, ndims, split):
+def write(chk, sc, cfgseed, ndims, split, even=False):
     rng = random.Random(cfgseed)
     cfg_ = gamma.Config.draw(rng, ndims=ndims, payload="tame")
     cfg_.ratios = tuple(sc["ratios"])
-    ap = nested_ap(sc, ndims, split, rng)
+    ap = nested_ap(sc, ndims, split, rng, even)
     ap["time"] = cfg_.time if cfg_.time is not None else 0.5
     d = os.path.join(chk.tmp_reuse(), "p")
     os.makedirs(os.path.dirname(d))
@@ -79,8 +84,8 @@ def write(chk, sc, cfgseed, ndims, split):
 
 
 def run_one(chk, sc, cfgseed, what):
-    ndims = 3 if what in ("point", "grid") else (2 if what == "plate" or cfgseed % 3 == 0 else 3)
-    d, ap, cfg_, reg = write(chk, sc, cfgseed, ndims, split=(what != "point" and cfgseed % 2 == 0))
+    ndims = 3 if what in ("point", "grid", "integral") else (2 if what == "plate" or cfgseed % 3 == 0 else 3)
+    d, ap, cfg_, reg = write(chk, sc, cfgseed, ndims, split=(what != "point" and cfgseed % 2 == 0), even=(what == "integral"))
     before = alpha.tree_digest(d)
     ds = spell.of(d, cfgseed)[0]
     rs = list(sc["ratios"])
@@ -97,6 +102,8 @@ def run_one(chk, sc, cfgseed, what):
         v = point(ds, ap, cfg_, reg, sc, cfgseed)
     elif what in ("grid", "plate"):
         v = cover(chk, ds, d, ap, cfg_, reg, sc, cfgseed, what)
+    elif what == "integral":
+        v = integral(ds, ap, cfg_, reg, sc, cfgseed)
     if v is None and alpha.tree_digest(d) != before:
         v = "the plotfile was modified"
     if v:
@@ -287,6 +294,29 @@ def cover(chk, ds, d, ap, cfg_, reg, sc, cfgseed, what):
     return None
 
 
+def integral(ds, ap, cfg_, reg, sc, cfgseed):
+    from amr_kitchen import PlotfileCooker
+    from amr_kitchen.pestle import volume_integral
+    lim = sc["lim"]
+    fi = 1 + cfgseed % len(FIELDS)
+    exp, _ = covering_grid(ap, cfg_, reg, lim, fi)
+    dv = float(np.prod(gamma.level_dx(cfg_, 3, lim)))
+    want = float(exp.sum()) * dv
+    mag = float(np.abs(exp).sum()) * dv
+    try:
+        with shims.pool_shim(shims.Scheduler(default="random", rng=random.Random(cfgseed))), core.quiet():
+            if cfgseed % 2:
+                got = volume_integral(PlotfileCooker(ds, ghost=True), FIELDS[fi - 1], limit_level=lim)
+            else:
+                got = volume_integral(PlotfileCooker(ds, limit_level=lim, ghost=True), FIELDS[fi - 1])
+    except Exception as e:
+        return "pestle (limit %d) raised %s: %s" % (lim, type(e).__name__, str(e)[:160])
+    if not abs(float(got) - want) <= 1e-9 * mag:
+        return "integral of %r up to level %d = %r, the sum of value x cell volume over the cells not covered by a finer selected level is %r" % (
+            FIELDS[fi - 1], lim, float(got), want)
+    return None
+
+
 def phase(chk, what):
     r = chk.add_tlc(tlc.run("MC_Refine", models(chk.tier), timeout=600), "refinement ratios (MC_Refine)")
     if r.violated:
@@ -296,7 +326,7 @@ def phase(chk, what):
     scs = r.emitted
     if what == "point":
         scs = [s for s in scs if s["lim"] == len(s["ratios"])]
-    elif what in ("grid", "plate"):
+    elif what in ("grid", "plate", "integral"):
         scs = [s for s in scs if s["ql"] == 0 and s["n0"] == 4]
     else:
         scs = [s for s in scs if s["ql"] == 0]
